@@ -250,6 +250,9 @@ def parse_kani_output(out):
                 covers[key] = status
         elif status in ("FAILURE", "UNDETERMINED"):
             failed.append({"desc": desc[:200], "loc": loc.split(" in function")[0].strip(), "status": status, "check": name})
+    # a failed unwinding assertion turns every other check UNDETERMINED: report the checks that actually failed
+    if any(f["status"] == "FAILURE" for f in failed):
+        failed = [f for f in failed if f["status"] == "FAILURE"]
     m = re.search(r"VERIFICATION:- (\w+)", out)
     status = m.group(1) if m else None
     tm = re.search(r"Verification Time: ([\d.]+)s", out)
